@@ -51,10 +51,12 @@ def config(quick):
 
 def config_uncmp(quick):
     """Destinations whose Go type cannot be compared with == (a struct value holding a slice; writer ids 37, 38):
-    set and add work as for any writer, a remove call that names one changes nothing and must not panic."""
+    set and add work as for any writer, a remove call that names one changes nothing and must not panic.
+    The default destinations are members of the lists like any other: RemoveWriter(os.Stdout) /
+    RemoveErrorWriter(os.Stderr) (ids -1 / -2) delete them."""
     sa = {
-        "Writer": [(1, 0), (37, 0)], "AddWriter": [(37, 0), (38, 0)], "RemoveWriter": [(1, 0), (37, 0), (38, 0)],
-        "ErrorWriter": [(37, 0)], "AddErrorWriter": [(4, 0)], "RemoveErrorWriter": [(37, 0), (4, 0)],
+        "Writer": [(1, 0), (37, 0)], "AddWriter": [(37, 0), (38, 0)], "RemoveWriter": [(1, 0), (37, 0), (38, 0), (-1, 0)],
+        "ErrorWriter": [(37, 0)], "AddErrorWriter": [(4, 0)], "RemoveErrorWriter": [(37, 0), (4, 0), (-2, 0)],
         "AddLevelWriter": [(37, 4)], "RemoveLevelWriter": [(37, 4)], "ResetWriters": [(0, 0)],
     }
     c = base(quick)
